@@ -1048,6 +1048,21 @@ func ForwardedInvokes(fn *ssa.Function, method string) []FwdInvoke {
 					if ai := idxOf(ap); ai >= 0 && ai < len(cc.Args) {
 						args[k] = cc.Args[ai]
 					}
+					continue
+				}
+				// an argument computed inside the helper from exactly one of its parameters
+				// (ColumnType(strings.TrimSpace(raw))) stands for the call-site value of that parameter
+				dep := -1
+				nDep := 0
+				for pi, hp := range h.Params {
+					hp := hp
+					if DependsOn(a, func(v ssa.Value) bool { return v == ssa.Value(hp) }, true) {
+						dep = pi
+						nDep++
+					}
+				}
+				if nDep == 1 && dep < len(cc.Args) {
+					args[k] = cc.Args[dep]
 				}
 			}
 			out = append(out, FwdInvoke{Recv: cc.Args[ri], Args: args, At: call.(ssa.Instruction), Inner: ic})
